@@ -46,6 +46,15 @@ func (propC05) Gen(seed uint64, tier string, idx int) *Plan {
 	}
 	p.Sub = fmt.Sprintf("%s/%s/%s/stream=%v/%s/ep%d", mode, eng, route, stream, epType, nEp)
 	errBody := `{"error":{"message":"scripted backend failure XYZZY","type":"invalid_request_error","code":"bad"}}`
+	// error answers come in all sizes: a gateway's HTML error page or a stack trace can be far
+	// larger than any internal buffer Olla uses while relaying it
+	pad := 0
+	if r.Chance(250) {
+		pad = pickS(r, []int{2 << 10, 70 << 10, 300 << 10})
+	}
+	if pad > 0 {
+		errBody = `{"error":{"message":"scripted backend failure XYZZY","type":"invalid_request_error","code":"bad","detail":"` + strings.Repeat("d", pad) + `"}}`
+	}
 	for i := 1; i <= nEp; i++ {
 		ep := endpoint(i, epType, 100-(i-1)*10)
 		ep.Models = []string{"m1"}
@@ -72,7 +81,7 @@ func (propC05) Gen(seed uint64, tier string, idx int) *Plan {
 			fmt.Sscanf(mode, "backend-%d", &code)
 			ep.Default = Resp{Status: code, CType: "application/json", Chunks: []Chunk{{Data: errBody}}}
 		case "backend-err-nojson":
-			ep.Default = Resp{Status: pickS(r, []int{500, 502, 400}), CType: "text/plain", Chunks: []Chunk{{Data: "upstream exploded XYZZY"}}}
+			ep.Default = Resp{Status: pickS(r, []int{500, 502, 400}), CType: "text/plain", Chunks: []Chunk{{Data: "upstream exploded XYZZY" + strings.Repeat(" .", pad/2)}}}
 		case "malformed-json":
 			ep.Default = Resp{Status: 200, CType: "application/json", Chunks: []Chunk{{Data: pickS(r, []string{`{"id":"x","choices":[{"message":{"role":"assist`, `not json at all`, `[1,2,3]`, `{"choices":"nope"}`, ``})}}}
 		}
@@ -155,6 +164,12 @@ func (propC05) Check(r *Run) []Violation {
 		head := c.Body
 		if len(head) > 300 {
 			head = head[:300]
+		}
+		if c.TimedOut && c.Status != 0 {
+			// every fault in this workload is fail-fast or bounded by the 2 s connect / 3 s read timeouts;
+			// a response that has started but is still open 25 simulated seconds later never ends
+			add("C05/response-never-completed", "status %d after %s but the response was still open at the %s deadline (%d body bytes so far, backend answered: %v)", c.Status, c.FirstByteAt-c.StartAt, op.Deadline, c.BodyLen, answered != nil)
+			continue
 		}
 		if c.Status == 0 {
 			add("C05/no-response", "client got no HTTP response: err=%q timed_out=%v after %s", c.Err, c.TimedOut, c.DoneAt-c.StartAt)
